@@ -53,6 +53,7 @@ PrefixCompat(a, b) == IsPrefix(a, b) \/ IsPrefix(b, a)
 StepOK(e, T) ==
   /\ Running(m, prog) /\ T.status = "run"
   /\ e.pc = m.pc /\ e.next = T.pc /\ e.cur = T.cur
+  /\ ("last" \in DOMAIN e => e.last = T.last)     \* the last jump source, where the emitter logs it
   /\ StOf(e.st) = T.st
   /\ e.out = T.out /\ e.err = T.err
 
